@@ -12,6 +12,10 @@ Pascal(n) == IF n = 0 THEN <<<<1>>>>
 RECURSIVE BinomMulFrom(_, _, _, _)
 BinomMulFrom(n, k, i, acc) == IF i > k THEN acc ELSE BinomMulFrom(n, k, i + 1, TLCEval(BDivSmall(BMulSmall(acc, n - i + 1), i)))
 BinomMul(n, k) == BinomMulFrom(n, k, 1, <<1>>)
+\* the same for n beyond 32 bits, given as a big natural (k small)
+RECURSIVE BinomMulBigFrom(_, _, _, _)
+BinomMulBigFrom(nB, k, i, acc) == IF i > k THEN acc ELSE BinomMulBigFrom(nB, k, i + 1, TLCEval(BDivSmall(BMul(acc, BSubSmall(nB, i - 1)), i)))
+BinomMulBig(nB, k) == BinomMulBigFrom(nB, k, 1, <<1>>)
 Fits64(b) == BLess(b, Two64)
 
 ISqrtS(k) == CHOOSE r \in 0..1000 : r * r <= k /\ (r + 1) * (r + 1) > k
